@@ -23,6 +23,11 @@ def oracle(case, a):
     if p.get("paused") != "true":
         return None
     bop = case.ops[bi]
+    aop = case.ops[ai]
+    if aop[0] in LOCKED and aop[0] not in ("create", "openwrite") and p.get("held") != "true":
+        # apart from writes through a returned handle, every primitive call of a locked
+        # operation lies inside its critical section
+        return "%s issues its primitive call %d without holding the lock" % (aop[0], k)
     if bop[0] in LOCKED and p.get("held") == "true":
         # (a pause at a Write/Close on the handle a finished OpenFile returned is outside the critical section)
         if p.get("b_ticks") != "0" or p.get("b_done") != "false":
@@ -43,6 +48,9 @@ def run(ctx):
         body = ops[1:-2]
         ents = {(i_[1][len(t2.view_prefix(cfg)):] or b"/"): i_[0] for i_ in inits if i_[1].startswith(t2.view_prefix(cfg) or b"/")}
         opa = t2.gen_op(rnd, ents, ["create", "remove", "removeall", "rename", "chmod", "mkdirall", "openwrite", "symlink", "chown"])
+        if i % 4 == 0 and body:
+            # hold a Rollback (anywhere in its restore / clean-up passes) while B works on a path the transaction touched
+            opa = ("rollback",)
         if rnd.random() < 0.8:
             opb = t2.gen_op(rnd, ents, list(t2.MUTATORS) + ["forcebackup"])
         else:
@@ -51,7 +59,11 @@ def run(ctx):
             opb = ("rollback",)
         new_ops = [ops[0]] + body + [opa, opb, ("dump",), ("rollback",)]
         ai = 1 + len(body)
-        k = rnd.choice([0, 1, 2, 3, 5, 8, 12, 17, 25])
+        k = rnd.choice([0, 1, 2, 3, 5, 8, 12, 17, 25, 33, 41])
+        if opa == ("rollback",):
+            touched = [o[1] for o in body if len(o) > 1 and isinstance(o[1], bytes)]
+            if touched and opb[0] not in ("rollback",) and len(opb) > 1:
+                opb = tuple([opb[0], rnd.choice(touched)] + list(opb[2:]))
         cases.append(t2.Case("c10-%d" % i, cfg, inits, new_ops, meta={"pause": (ai, k, ai + 1)}))
     # the model runs the same two operations one after the other: with mutual exclusion the
     # concurrent run must have the results and the final tree of the serial run A;B
